@@ -346,17 +346,26 @@ func prepareCorrectionOptions(o *CorrectionOptions, opts ...schema.Option) error
 		row(o)
 	}
 
-	// Copy over the stamps from the previous header
-	if o.Head != nil && len(o.Head.Stamps) > 0 {
+	// Work on copies of the stamps given explicitly and of those of the previous
+	// header: the options (and the raw JSON read into them below) and the
+	// correction's preceding row must not share data with the caller or with
+	// the source header.
+	stamps := make([]*head.Stamp, 0, len(o.Stamps))
+	for _, s := range o.Stamps {
+		if s != nil {
+			cp := *s
+			stamps = append(stamps, &cp)
+		}
+	}
+	if o.Head != nil {
 		for _, s := range o.Head.Stamps {
 			if s != nil {
-				// copy: the options (and the raw JSON read into them below) and the
-				// correction's preceding row must not share data with the source header
 				cp := *s
-				o.Stamps = append(o.Stamps, &cp)
+				stamps = append(stamps, &cp)
 			}
 		}
 	}
+	o.Stamps = stamps
 
 	// If we have a raw json object, this will override any of the other options
 	if len(o.data) > 0 {
